@@ -472,6 +472,9 @@ def _in_string_context(u):
                 return True
         if isinstance(p, ast.Call) and dotted(p.func) == "str":
             return True
+        if isinstance(p, ast.Call) and isinstance(p.func, ast.Attribute) and p.func.attr in ("join", "format") and isinstance(p.func.value, ast.Constant) \
+                and isinstance(p.func.value.value, str):
+            return True  # "<sep>".join([... value ...]) / "...{}".format(value)
         if isinstance(p, ast.stmt):
             return False
         p = getattr(p, "_parent", None)
